@@ -1,4 +1,5 @@
 import HeimdallModel.Lemmas.CacheExec
+import HeimdallModel.Lemmas.CacheReload
 import HeimdallModel.Spec.CacheDeps
 import HeimdallModel.Gen.CacheKeys
 import HeimdallModel.Spec.CacheWitness
@@ -346,5 +347,185 @@ theorem c11_remote_authorizer_transparent {Resp : Type} (H : Bytes → Bytes) (r
     (hH : NoCollisionOn H (h.map fun tr => encode remoteAuthorizer tr.2.env)) :
     Transparent (keyed H remoteAuthorizer (deps "remoteAuthorizer") remote accepts (recheckOf hitPath "remoteAuthorizer")) h :=
   c11_current_source_transparent H "remoteAuthorizer" remoteAuthorizer (by decide) remote accepts h hw hH (Or.inl (by decide))
+
+/-! ## Reloadable state: what a key reads may change while the mechanism lives
+
+The key store of the jwt finalizer's signer is watched; a change of the file replaces the signing key of the living
+signer (`OnChanged → load`), the mechanism, its rule-level variants (they share the signer) and the cache stay. A history
+is a list of requests and reloads (`Model/CacheReload.lean`). -/
+
+/-- **Transparency across reloads.** If the key separates (state in force, request) pairs whose fresh evaluation or
+validation could differ, then in every history of requests and reloads — any number of reloads, at any point, to any
+state, roll-backs included — every request observes exactly the uncached decision *under the state in force when it is
+made*: no request is handed a result computed under a state that has been replaced. -/
+theorem c11_reload_transparent {St Req Resp : Type} (m : Mech (St × Req) Resp) (s₀ : St) (h : List (Event St Req))
+    (hl : Lossless m) (hs : KeySoundOn m ((inForce s₀ h).map (·.2))) :
+    (runEv m s₀ Store.empty h).map (·.out) = (inForce s₀ h).map fun x => direct m x.2 := by
+  rw [runEv_eq_run]
+  exact c11_transparent m _ hl hs
+
+/-- hypotheses of `c11_reload_transparent` for `reloadDemo` (key and subject both written): subject 3 asks twice, reload
+to key 2, asks again (a miss, token of key 2), roll-back to key 1, asks again (a hit: the entry of key 1 is still alive
+and it is what a fresh evaluation would produce) -/
+example : Lossless reloadDemo ∧ KeySoundOn reloadDemo ((inForce 1 reloadEvents).map (·.2)) ∧
+    (runEv reloadDemo 1 Store.empty reloadEvents).map (fun x => (x.out, x.hit)) =
+      [(.ok 13, false), (.ok 13, true), (.ok 23, false), (.ok 13, true)] := by
+  refine ⟨fun _ => rfl, ?_, by decide⟩
+  have hk : ∀ r ∈ (inForce 1 reloadEvents).map (·.2), ∀ r' ∈ (inForce 1 reloadEvents).map (·.2),
+      reloadDemo.key r = reloadDemo.key r' → reloadDemo.fresh r = reloadDemo.fresh r' := by decide
+  intro r hr r' hr' h
+  exact ⟨hk r hr r' hr' h, Or.inl rfl⟩
+
+/-- Transparency across reloads for a mechanism whose key is `H` of a field list, part of whose sources (`Overlay`:
+the digest of the signer) is replaced by a reload: decidable conditions on the field list — the reloadable source is a
+dependency like any other, so `covers` demands that it is written — and no collision of `H` on the byte strings of this
+history. -/
+theorem c11_reload_keyed_transparent {Resp : Type} (H : Bytes → Bytes) (fs : List Field) (deps : List Dep)
+    (remote : List View → Option Resp) (accepts : Nat → Resp → Bool) (recheck : Bool) (s₀ : Overlay)
+    (h : List (Event Overlay KReq)) (hd : delimited fs = true) (hc : covers deps fs = true)
+    (hw : ∀ x ∈ inForce s₀ h, wt fs (x.2.2.env.withState x.2.1) = true)
+    (hH : NoCollisionOn H ((inForce s₀ h).map fun x => encode fs (x.2.2.env.withState x.2.1)))
+    (hp : recheck = true ∨ ∀ p p' v, accepts p v = accepts p' v) :
+    (runEv (stateful (keyed H fs deps remote accepts recheck)) s₀ Store.empty h).map (·.out) =
+      (inForce s₀ h).map fun x => direct (keyed H fs deps remote accepts recheck) (x.2.2.withState x.2.1) := by
+  apply c11_reload_transparent (stateful (keyed H fs deps remote accepts recheck)) s₀ h (fun _ => rfl)
+  apply stateful_sound
+  apply keyed_sound H fs deps remote accepts recheck _ hd hc
+  · intro r hr
+    simp only [List.map_map, List.mem_map, Function.comp_apply] at hr
+    obtain ⟨x, hx, rfl⟩ := hr
+    exact hw x hx
+  · simpa [List.map_map, Function.comp_def, KReq.withState] using hH
+  · exact hp
+
+/-- hypotheses of `c11_reload_keyed_transparent` for the jwt finalizer of the current source, `H` the identity: one
+request, a reload replacing the digest of the signer, the same request again -/
+example : ∃ (s₀ : Overlay) (h : List (Event Overlay KReq)), (inForce s₀ h).length = 2 ∧
+    (∀ x ∈ inForce s₀ h, wt jwtFinalizer (x.2.2.env.withState x.2.1) = true) ∧
+    NoCollisionOn id ((inForce s₀ h).map fun x => encode jwtFinalizer (x.2.2.env.withState x.2.1)) ∧
+    delimited jwtFinalizer = true ∧ covers (deps "jwtFinalizer") jwtFinalizer = true := by
+  let r : KReq := ⟨{ str := fun s => if s = "subject" then [117] else [] }, 0, true, 600⟩
+  refine ⟨[("signer", [1])], [.req 0 r, .reload [("signer", [2])], .req 1 r], rfl, ?_, fun _ _ _ _ h => h,
+    by decide, by decide⟩
+  intro x hx
+  simp only [inForce, List.mem_cons, List.not_mem_nil, or_false] at hx
+  rcases hx with rfl | rfl <;> decide
+
+/-- **A memoised state digest serves results of a replaced state.** Take any mechanism whose key function reads the
+state through a value computed at first use and kept (`memoised`: a `sync.Once` around the digest of the signer), while
+the evaluation itself reads the current state. Whenever a request `r` was answered `v` under state `s` and stored, and the
+state is reloaded to `s'`, the same request within the lifetime is answered `v` from the cache — no remote call — whatever
+a fresh evaluation under `s'` yields. -/
+theorem c11_memoised_state_serves_stale_result {St Req Resp : Type} (m : Mech (St × Req) Resp) (hl : Lossless m)
+    (s s' : St) (r : Req) (v : Resp) (t t' : Nat)
+    (hf : m.fresh (s, r) = some v) (ha : m.accept (s, r) v = true)
+    (hen : m.enabled (s, r) = true) (hen' : m.enabled (s', r) = true)
+    (httl : m.ttl (s, r) v > 0) (hlive : t' < t + m.ttl (s, r) v)
+    (hpass : m.recheck = false ∨ m.accept (s', r) v = true) :
+    (runMemo m none s Store.empty [.req t r, .reload s', .req t' r]).map (fun x => (x.out, x.calls, x.hit)) =
+      [(.ok v, 1, false), (.ok v, 0, true)] := by
+  obtain ⟨h1, h2, h3, h4⟩ := memo_first m s r v t hf ha hen httl
+  obtain ⟨h5, h6, h7⟩ := memo_hit m hl _ s s' r v t' _ h4 hlive hen' hpass
+  simp [runMemo, h1, h2, h3, h5, h6, h7]
+
+/-- …so such a mechanism is not transparent as soon as the reload changes what a fresh evaluation yields (another key
+signs the token): the property needs the key to be derived from the state in force, `c11_reload_transparent`. -/
+theorem c11_memoised_state_not_transparent {St Req Resp : Type} (m : Mech (St × Req) Resp) (hl : Lossless m)
+    (s s' : St) (r : Req) (v : Resp) (t t' : Nat)
+    (hf : m.fresh (s, r) = some v) (ha : m.accept (s, r) v = true)
+    (hen : m.enabled (s, r) = true) (hen' : m.enabled (s', r) = true)
+    (httl : m.ttl (s, r) v > 0) (hlive : t' < t + m.ttl (s, r) v)
+    (hpass : m.recheck = false ∨ m.accept (s', r) v = true) (hstale : direct m (s', r) ≠ .ok v) :
+    (runMemo m none s Store.empty [.req t r, .reload s', .req t' r]).map (·.out) ≠
+      (inForce s [.req t r, .reload s', .req t' r]).map fun x => direct m x.2 := by
+  have h := c11_memoised_state_serves_stale_result m hl s s' r v t t' hf ha hen hen' httl hlive hpass
+  have h' : (runMemo m none s Store.empty [.req t r, .reload s', .req t' r]).map (·.out) = [.ok v, .ok v] := by
+    have := congrArg (List.map Prod.fst) h
+    simpa [List.map_map, Function.comp_def] using this
+  rw [h']
+  simp only [inForce, List.map_cons, List.map_nil]
+  intro he
+  have := (List.cons.inj (List.cons.inj he).2).1
+  exact hstale this.symm
+
+/-- hypotheses of `c11_memoised_state_not_transparent`: `reloadDemo` with a memoised key digest, subject 3 under key 1,
+reload to key 2, subject 3 again: the token of key 1 is served where a fresh evaluation signs with key 2 -/
+example : Lossless reloadDemo ∧ reloadDemo.fresh (1, 3) = some 13 ∧ direct reloadDemo (2, 3) ≠ .ok 13 ∧
+    (runMemo reloadDemo none 1 Store.empty [.req 0 3, .reload 2, .req 1 3]).map (·.out) = [.ok 13, .ok 13] ∧
+    (runEv reloadDemo 1 Store.empty [.req 0 3, .reload 2, .req 1 3]).map (·.out) = [.ok 13, .ok 23] := by
+  refine ⟨fun _ => rfl, rfl, by decide, by decide, by decide⟩
+
+/-- **Reuse across reloads.** Once a request has been answered and stored, then in every continuation of requests and
+reloads (starting in any state), every request made before the entry expires whose key *under the state in force at its
+time* equals the stored key is a hit without a remote call. In particular a reload that does not change what the key
+reads (the file rewritten with the same key) or that restores an earlier state (roll-back) loses nothing. -/
+theorem c11_reload_reuse {St Req Resp : Type} (m : Mech (St × Req) Resp) (st : Store Resp) (t : Nat) (s : St) (r : Req)
+    (v : Resp) (hmiss : (step m st t (s, r)).hit = false) (hok : (step m st t (s, r)).out = .ok v)
+    (hen : m.enabled (s, r) = true) (httl : m.ttl (s, r) v > 0)
+    (s₁ : St) (h : List (Event St Req)) (hlive : ∀ x ∈ inForce s₁ h, x.1 < t + m.ttl (s, r) v) :
+    ∀ x ∈ (runEv m s₁ (step m st t (s, r)).store h).zip (inForce s₁ h),
+      m.key x.2.2 = m.key (s, r) → m.enabled x.2.2 = true → x.1.calls = 0 ∧ x.1.hit = true := by
+  rw [runEv_eq_run]
+  exact c11_reuse m st t (s, r) v hmiss hok hen httl (inForce s₁ h) hlive
+
+/-- hypotheses of `c11_reload_reuse`: subject 3 answered under key 1 at time 0; reload to key 2, reload back to key 1,
+subject 3 at time 5: a hit -/
+example : (step reloadDemo Store.empty 0 (1, 3)).hit = false ∧ (step reloadDemo Store.empty 0 (1, 3)).out = .ok 13 ∧
+    (runEv reloadDemo 1 (step reloadDemo Store.empty 0 (1, 3)).store [.reload 2, .reload 1, .req 5 3]).map
+      (fun x => (x.calls, x.hit)) = [(0, true)] := by decide
+
+/-- The digest of the signer of the current source (`jwtSigner.Hash`, regenerated) stands for the key material: two
+signer states with the same digest agree on key id, algorithm, issuer and the thumbprint of the key — or the two byte
+strings are a collision of `H`. A key store reloaded with another key under the same key id therefore changes the digest,
+and with it (`c11_nested_digest`) the key of the finalizer. -/
+theorem c11_signer_digest_determines_key_material (H : Bytes → Bytes) (es es' : Env)
+    (hw : wt jwtSigner es = true) (hw' : wt jwtSigner es' = true) (hk : key H jwtSigner es = key H jwtSigner es') :
+    (es.str "keyID" = es'.str "keyID" ∧ es.str "algorithm" = es'.str "algorithm" ∧ es.str "issuer" = es'.str "issuer" ∧
+      es.str "thumbprint" = es'.str "thumbprint") ∨
+    (encode jwtSigner es ≠ encode jwtSigner es' ∧ H (encode jwtSigner es) = H (encode jwtSigner es')) := by
+  rcases c11_key_separates H jwtSigner (by decide) es es' hw hw' hk with h | h
+  · refine Or.inl ⟨?_, ?_, ?_, ?_⟩
+    · simpa [Field.dep, Dep.view] using h (.lp "keyID") (by decide)
+    · simpa [Field.dep, Dep.view] using h (.lp "algorithm") (by decide)
+    · simpa [Field.dep, Dep.view] using h (.lp "issuer") (by decide)
+    · simpa [Field.dep, Dep.view] using h (.lp "thumbprint") (by decide)
+  · exact Or.inr h
+
+/-- hypotheses of `c11_signer_digest_determines_key_material` (`H` the identity): the same key id, another thumbprint -/
+example : ∃ es es' : Env, wt jwtSigner es = true ∧ wt jwtSigner es' = true ∧ key id jwtSigner es ≠ key id jwtSigner es' :=
+  ⟨{ str := fun s => if s = "thumbprint" then [1] else [107] }, { str := fun s => if s = "thumbprint" then [2] else [107] },
+   by decide, by decide, by decide⟩
+
+/-- **The key functions of the current source in histories with reloads**: any entry of the generated table used as the
+key of a mechanism part of whose sources is reloadable — in every history of requests and reloads the decisions are
+those of the uncached mechanism under the state in force. -/
+theorem c11_current_source_reload_transparent {Resp : Type} (H : Bytes → Bytes) (name : String) (fs : List Field)
+    (hf : table.lookup name = some fs) (remote : List View → Option Resp) (accepts : Nat → Resp → Bool)
+    (s₀ : Overlay) (h : List (Event Overlay KReq))
+    (hw : ∀ x ∈ inForce s₀ h, wt fs (x.2.2.env.withState x.2.1) = true)
+    (hH : NoCollisionOn H ((inForce s₀ h).map fun x => encode fs (x.2.2.env.withState x.2.1)))
+    (hp : recheckOf hitPath name = true ∨ ∀ p p' v, accepts p v = accepts p' v) :
+    (runEv (stateful (keyed H fs (deps name) remote accepts (recheckOf hitPath name))) s₀ Store.empty h).map (·.out) =
+      (inForce s₀ h).map fun x =>
+        direct (keyed H fs (deps name) remote accepts (recheckOf hitPath name)) (x.2.2.withState x.2.1) := by
+  have hm := mem_of_lookup table name fs hf
+  have hd := List.all_eq_true.mp c11_generated_keys_delimited _ hm
+  have hc := List.all_eq_true.mp c11_generated_keys_cover_deps _ hm
+  exact c11_reload_keyed_transparent H fs _ remote accepts _ s₀ h hd hc hw hH hp
+
+/-- The jwt finalizer of the current source (no rule-level validation): in every history of requests — any subjects,
+outputs, claims, lifetimes — and key-store reloads, every request is handed a token a fresh evaluation under the signer
+state in force would produce. -/
+theorem c11_jwt_finalizer_transparent_across_reloads {Resp : Type} (H : Bytes → Bytes)
+    (remote : List View → Option Resp) (s₀ : Overlay) (h : List (Event Overlay KReq))
+    (hw : ∀ x ∈ inForce s₀ h, wt jwtFinalizer (x.2.2.env.withState x.2.1) = true)
+    (hH : NoCollisionOn H ((inForce s₀ h).map fun x => encode jwtFinalizer (x.2.2.env.withState x.2.1))) :
+    (runEv (stateful (keyed H jwtFinalizer (deps "jwtFinalizer") remote (fun _ _ => true)
+        (recheckOf hitPath "jwtFinalizer"))) s₀ Store.empty h).map (·.out) =
+      (inForce s₀ h).map fun x =>
+        direct (keyed H jwtFinalizer (deps "jwtFinalizer") remote (fun _ _ => true) (recheckOf hitPath "jwtFinalizer"))
+          (x.2.2.withState x.2.1) :=
+  c11_current_source_reload_transparent H "jwtFinalizer" jwtFinalizer (by decide) remote _ s₀ h hw hH
+    (Or.inr fun _ _ _ => rfl)
 
 end Heimdall.Props.C11
